@@ -721,7 +721,7 @@ def difference_across_datetime_limits(i1: int, i2: int, ma: bool, da: bool, mb: 
 
 # --- added after round-4 seeded changes: the implicit timezone is applied to COPIES of the caller's values (both operand positions) ----------
 
-T_TZ = parse_all({'sub': '$z - $d', 'sub_r': '$d - $z', 'both': '($d - $z, $z - $d, $d - $d)', 'tzd': 'timezone-from-dateTime($d)', 'strd': 'string($d)'})
+T_TZ.update(parse_all({'sub': '$z - $d', 'sub_r': '$d - $z', 'both': '($d - $z, $z - $d, $d - $d)', 'tzd': 'timezone-from-dateTime($d)', 'strd': 'string($d)'}))
 
 
 @ob(budget=120, bound='a timezone-less xs:dateTime held in a variable, used as left and as right operand of a subtraction with a value in UTC, context '
